@@ -1,10 +1,10 @@
 #!/usr/bin/env python3
 """C10 translator: placeholder constants of the dummy filters, read from the Rust source.
 
-reads   /repo/quill/src/action/remove_dummy.rs   (the keep-condition of each of the four `retain` levels)
-        /repo/quill/src/action/insert_dummy.rs   (the `format!("p_{}", k.index)` placeholder of parameters)
-        /repo/duke/src/tree/method.rs            (MethodName::INIT / MethodName::CLINIT)
-writes  /verif/coq/C10/Consts.v
+reads   <vcheck.REPO>/quill/src/action/remove_dummy.rs   (the keep-condition of each of the four `retain` levels)
+        <vcheck.REPO>/quill/src/action/insert_dummy.rs   (the `format!("p_{}", k.index)` placeholder of parameters)
+        <vcheck.REPO>/duke/src/tree/method.rs            (MethodName::INIT / MethodName::CLINIT)
+writes  <vcheck.COQ>/C10/Consts.v
 
 Fails closed: the keep-condition of every level must have exactly the shape
 
@@ -19,9 +19,18 @@ generates) are thereby both tied to the source.
 """
 import os
 import re
+import sys
 
-REPO = os.environ.get("VERIF_REPO", "/repo")
-OUT = os.path.join(os.path.dirname(os.path.dirname(os.path.abspath(__file__))), "coq", "C10", "Consts.v")
+sys.path.insert(0, os.path.join(os.path.dirname(os.path.dirname(os.path.abspath(__file__))), "lib"))
+import vcheck  # noqa: E402  (vcheck.REPO: the repository under test; vcheck.COQ: where generated .v files go)
+
+
+def repo_file(rel):
+    return os.path.join(vcheck.REPO, rel)
+
+
+def out_path():
+    return os.path.join(vcheck.COQ, "C10", "Consts.v")
 
 LEVELS = {
     # receiver of the retain call -> (level name, child lists that must be tested for emptiness, nested retains)
@@ -118,7 +127,7 @@ def level(recv, body, errs, found):
 
 
 def method_consts(errs):
-    src = strip_comments(open(os.path.join(REPO, "duke/src/tree/method.rs"), encoding="utf-8").read())
+    src = strip_comments(open(repo_file("duke/src/tree/method.rs"), encoding="utf-8").read())
     out = {}
     for m in re.finditer(r'pub\s+const\s+([A-Z_]+)\s*:\s*&\'static\s+MethodNameSlice\s*=\s*\{\s*unsafe\s*\{\s*MethodNameSlice::from_inner_unchecked\(\s*JavaStr::from_str\(\s*"([^"\\]*)"\s*\)\s*\)\s*\}\s*\}\s*;', src):
         out[m.group(1)] = m.group(2)
@@ -138,7 +147,7 @@ def glist(xs):
 def translate():
     errs = []
     found = {}
-    src = strip_comments(open(os.path.join(REPO, "quill/src/action/remove_dummy.rs"), encoding="utf-8").read())
+    src = strip_comments(open(repo_file("quill/src/action/remove_dummy.rs"), encoding="utf-8").read())
     m = re.search(r"pub\s+fn\s+remove_dummy\s*\(\s*mut\s+self\s*,\s*namespace\s*:\s*&str\s*\)\s*->\s*Result<Self>\s*\{", src)
     if not m:
         return ["remove_dummy.rs: fn remove_dummy(mut self, namespace: &str) -> Result<Self> not found"]
@@ -171,7 +180,7 @@ def translate():
             errs.append("level %s compares with MethodName constants" % lv)
 
     # insert_dummy.rs: the parameter placeholder
-    isrc = strip_comments(open(os.path.join(REPO, "quill/src/action/insert_dummy.rs"), encoding="utf-8").read())
+    isrc = strip_comments(open(repo_file("quill/src/action/insert_dummy.rs"), encoding="utf-8").read())
     fm = re.findall(r'format!\(\s*"((?:[^"\\])*)"\s*,\s*([^)]*)\)', isrc)
     ins_prefix = None
     if len(fm) != 1 or fm[0][1].strip() != "k.index" or not fm[0][0].endswith("{}") or "{" in fm[0][0][:-2]:
@@ -196,10 +205,11 @@ def translate():
         text += "Definition %s_exact : list str := %s.\n" % (lv, glist(exact[lv]))
     text += "(* %r *)\n" % ins_prefix
     text += "Definition insert_param_prefix : str := %s.\n" % gstr(ins_prefix)
-    os.makedirs(os.path.dirname(OUT), exist_ok=True)
-    old = open(OUT, encoding="utf-8").read() if os.path.exists(OUT) else None
+    out = out_path()
+    os.makedirs(os.path.dirname(out), exist_ok=True)
+    old = open(out, encoding="utf-8").read() if os.path.exists(out) else None
     if old != text:
-        with open(OUT, "w", encoding="utf-8") as f:
+        with open(out, "w", encoding="utf-8") as f:
             f.write(text)
     return []
 
